@@ -955,7 +955,7 @@ def rand_history(rng, pattern: str | None = None) -> dict:
         loc = [i for i, d in enumerate(sc["deps"]) if d["kind"] in ("dir", "pkg") and d.get("share") is None]
         listed_loc = [i for i in loc if not sc["deps"][i]["all_files"]
                       and sc["deps"][i]["scripts"] + sc["deps"][i]["styles"]]
-        if loc and (listed_loc or pattern is None or pattern == "allfiles"):
+        if loc and (listed_loc or pattern in (None, "allfiles", "resave")):
             if pattern == "allfiles" and not any(sc["deps"][i]["all_files"] for i in loc):
                 sc["deps"][loc[0]]["all_files"] = True
             break
@@ -982,20 +982,24 @@ def rand_history(rng, pattern: str | None = None) -> dict:
         i = rng.choice(loc)
         d = sc["deps"][i]
         listed = [p for p in dict.fromkeys(d["scripts"] + d["styles"])]
+        # files that a dependency served from the same directory lists: they stay (a listed file of
+        # an all_files dependency that does not exist is outside the statement)
+        pinned = [p for e in sc["deps"] if e.get("share") == i for p in e["scripts"] + e["styles"]]
+        deletable = [p for p in listed if p in cur[i] and p not in pinned]
         ops = ["stale", "add"]
         if cur[i]:
             ops += ["change", "change"]
-        if listed and not d["all_files"] and any(p in cur[i] for p in listed):
+        if deletable and not d["all_files"]:
             ops += ["delete", "delete", "delete"]
         if deleted[i]:
             ops += ["restore", "restore", "restore"]
-        unlisted = [p for p in cur[i] if not any(p == q or p.startswith(q + "/") for q in listed)]
+        unlisted = [p for p in cur[i] if not any(p == q or p.startswith(q + "/") for q in listed + pinned)]
         if unlisted:
             ops += ["rename"]
         op = rng.choice(ops)
         k = next(uniq)
         if op == "delete":
-            p = rng.choice([p for p in listed if p in cur[i]])
+            p = rng.choice(deletable)
             deleted[i][p] = cur[i].pop(p)
             return ["delete", i, p]
         if op == "restore":
@@ -1026,6 +1030,19 @@ def rand_history(rng, pattern: str | None = None) -> dict:
         steps = [copy_step_desc(True), ["delete", i, p], copy_step_desc(rng.random() < 0.7)]
         if rng.random() < 0.6:
             steps += [["restore", i, p, cur[i][p] if rng.random() < 0.5 else rand_bytes(rng)], copy_step_desc(True)]
+    elif pattern == "resave":        # the SAME document / tag / list object saved again with another
+        host, shape = rng.choice(["doc", "doc", "tag", "taglist"]), rng.choice(SHAPES)   # libdir / include_version
+        steps = [["save", cfg[0], cfg[1], host, shape, False, "abs"]]
+        for _ in range(rng.randrange(1, 3)):
+            for _ in range(rng.randrange(0, 2)):
+                steps.append(mutation())
+            r_ = rng.random()
+            if r_ < 0.4:
+                cfg[1] = not cfg[1]
+            elif r_ < 0.8:
+                cfg[0] = rng.choice([x for x in LIBDIRS if x != cfg[0]])
+            steps.append(["save", cfg[0], cfg[1], host, shape, True,
+                          rng.choice(FILE_FORMS) if rng.random() < 0.3 else "abs"])
     elif pattern == "allfiles":      # copy, add / rename / change in the source, copy
         steps = [copy_step_desc(True)]
         for _ in range(rng.randrange(1, 3)):
@@ -1126,7 +1143,7 @@ def run(ctx: Ctx) -> None:
                 "the names of real files) in the target directory, bystander files, a regular file in place of "
                 "the target directory, and one scenario per choice of missing listed file; histories: 2-4 copy/save steps (changing libdir / "
                 "include_version / host) on the same dependency objects and directories in one process, separated "
-                "by deleting / restoring / changing listed source files, adding / renaming source files, dropping "
+                "by deleting / restoring / changing listed source files (and a pattern that saves the very same object again under another libdir / include_version), adding / renaming source files, dropping "
                 "stale files into a target directory, with the full oracle and the model comparison after every "
                 "step (optionally on the document object of an earlier step). Documents hold several objects "
                 "for one dependency name (older / newer / numerically-but-not-lexically newer / equal versions "
@@ -1372,6 +1389,7 @@ def run(ctx: Ctx) -> None:
         # histories in one process on the same dependency objects and directories
         hists = ([rand_history(rng, "delete") for _ in range(ctx.budget(25, 400))]
                  + [rand_history(rng, "allfiles") for _ in range(ctx.budget(12, 200))]
+                 + [rand_history(rng, "resave") for _ in range(ctx.budget(20, 300))]
                  + [rand_history(rng) for _ in range(ctx.budget(25, 500))])
         pending_h: list = []
         nsteps = 0
